@@ -79,6 +79,21 @@ func (v *Vue) evalConditionExpr(ctx VueContext, expr string) (bool, error) {
 // It returns the result nodes, the number of nodes to skip (including v-else-if/v-else),
 // and an error if evaluation fails.
 // The skipCount includes all nodes consumed by the chain (up to and including the matched node or the end of the chain).
+// onceAlreadyRendered applies the v-once rule to a chain member that was selected: it reports true when the
+// element was already rendered in this render, and marks it as rendered otherwise. The head of a chain is
+// checked by evaluate itself; v-else-if and v-else members are only reached from here.
+func onceAlreadyRendered(ctx VueContext, node *html.Node) bool {
+	if !helpers.HasAttr(node, "v-once") || helpers.HasAttr(node, "v-for") {
+		return false
+	}
+	id := helpers.GetAttr(node, "v-once-id")
+	if ctx.seen[id] {
+		return true
+	}
+	ctx.seen[id] = true
+	return false
+}
+
 func (v *Vue) evalElseIfChain(ctx VueContext, node *html.Node, nodes []*html.Node, depth int) ([]*html.Node, int, error) {
 	var result []*html.Node
 	lastChainNodeIdx := 0 // Track the last node in the chain for skipCount
@@ -137,6 +152,9 @@ func (v *Vue) evalElseIfChain(ctx VueContext, node *html.Node, nodes []*html.Nod
 			}
 			if ok {
 				// v-else-if condition is true - evaluate and return this node (don't remove attribute, filter during rendering)
+				if onceAlreadyRendered(ctx, nextNode) {
+					return result, idx, nil
+				}
 				// Evaluate the node (evaluateNodeAsElement handles cloning internally)
 				evaluated, err := v.evaluateNodeAsElement(ctx, nextNode, depth)
 				return evaluated, idx, err
@@ -148,6 +166,9 @@ func (v *Vue) evalElseIfChain(ctx VueContext, node *html.Node, nodes []*html.Nod
 		// Check for v-else
 		if helpers.HasAttr(nextNode, "v-else") {
 			// v-else always matches - evaluate and return this node (don't remove attribute, filter during rendering)
+			if onceAlreadyRendered(ctx, nextNode) {
+				return result, idx, nil
+			}
 			// Evaluate the node (evaluateNodeAsElement handles cloning internally)
 			evaluated, err := v.evaluateNodeAsElement(ctx, nextNode, depth)
 			return evaluated, idx, err
